@@ -305,7 +305,7 @@ fn zoo(report: &Report, k: u32) {
     let globals: Vec<liquid::Object> = datas.iter().map(|d| d.to_object()).collect();
     let nd = datas.len() as u64;
     let hist_per_t = seq_count(nd, k) - 1; // non-empty histories
-    for policy in [Policy::Eager, Policy::Lazy] {
+    for policy in [Policy::Eager, Policy::Lazy, Policy::OnDemand] {
         // baseline: every (template, data) on its own freshly built parser, twice
         let baseline: Vec<Vec<Outcome>> = templates
             .iter()
